@@ -1,0 +1,30 @@
+//! Read-only observation hooks for external verification harnesses.
+//!
+//! Only compiled with `--cfg xot_verif`; not part of the public API otherwise.
+
+use crate::xotdata::{Node, Xot};
+
+impl Xot {
+    /// Every arena slot that currently holds a live node, as a handle
+    /// carrying the slot's current stamp.
+    pub fn verif_live_nodes(&self) -> Vec<Node> {
+        self.arena
+            .iter()
+            .filter(|n| !n.is_removed())
+            .filter_map(|n| self.arena.get_node_id(n))
+            .map(Node::new)
+            .collect()
+    }
+
+    /// (slots ever allocated, slots currently holding a live node)
+    pub fn verif_arena_stats(&self) -> (usize, usize) {
+        let total = self.arena.count();
+        let live = self.arena.iter().filter(|n| !n.is_removed()).count();
+        (total, live)
+    }
+
+    /// Whether text consolidation is currently switched on.
+    pub fn verif_text_consolidation(&self) -> bool {
+        self.text_consolidation
+    }
+}
